@@ -248,6 +248,16 @@ type bpEval struct {
 	steps int
 	depth int
 	why   string
+	// hooks used when a handler (not a pure helper) is interpreted: loads of struct fields,
+	// calls through the state interface; root / visited / stopped confine the walk to the
+	// first iteration of the handler's lane loop
+	root        *ssa.Function
+	visited     map[*ssa.BasicBlock]bool
+	load        func(ld *ssa.UnOp, fr *bpFrame) (pval, bool)
+	invoke      func(call *ssa.Call, fr *bpFrame) (pval, bool)
+	hasLaneLoop bool
+	stopped     bool
+	captured    pval // what the hook captured when it stopped the walk
 }
 
 func (e *bpEval) fail(format string, a ...interface{}) pval {
@@ -487,6 +497,12 @@ func (e *bpEval) exec(b, pred *ssa.BasicBlock, fr *bpFrame) pval {
 		if e.steps > 20000 {
 			return e.fail("step limit")
 		}
+		if e.root != nil && fr.fn == e.root && e.hasLaneLoop {
+			if e.visited[b] {
+				return pval{kind: pTuple} // the second iteration of the lane loop would start
+			}
+			e.visited[b] = true
+		}
 		// phis simultaneously
 		if pred != nil {
 			upd := map[ssa.Value]pval{}
@@ -545,6 +561,12 @@ func (e *bpEval) exec(b, pred *ssa.BasicBlock, fr *bpFrame) pval {
 						w, _, _ := typeWidth(t.Type())
 						fr.vals[t] = pConst(-v, 64).trunc(w)
 					}
+				case token.MUL:
+					if e.load != nil {
+						if v, ok := e.load(t, fr); ok {
+							fr.vals[t] = v
+						}
+					}
 				}
 			case *ssa.Convert:
 				x := e.get(t.X, fr)
@@ -569,6 +591,17 @@ func (e *bpEval) exec(b, pred *ssa.BasicBlock, fr *bpFrame) pval {
 					fr.vals[t] = x.tuple[t.Index]
 				}
 			case *ssa.Call:
+				if t.Call.IsInvoke() && e.invoke != nil {
+					if v, handled := e.invoke(t, fr); handled {
+						if v.kind != pUnknown {
+							fr.vals[t] = v
+						}
+						if e.stopped {
+							return e.captured
+						}
+						break
+					}
+				}
 				cal := t.Call.StaticCallee()
 				if cal == nil {
 					break
@@ -617,8 +650,32 @@ func (e *bpEval) exec(b, pred *ssa.BasicBlock, fr *bpFrame) pval {
 					}
 					break
 				}
+				switch strings.ToLower(cal.Name()) {
+				case "asint8", "asint16", "asint32", "asint64", "int8tobits", "int16tobits", "int32tobits", "int64tobits",
+					"float32frombits", "float64frombits", "float32bits", "float64bits", "asfloat32", "asfloat64", "float32tobits", "float64tobits":
+					// a reinterpretation of the same bits (floats are carried as their bit patterns)
+					if len(args) == 1 && args[0].kind == pVec {
+						if w, _, ok := typeWidth(t.Type()); ok {
+							fr.vals[t] = args[0].trunc(w)
+						} else if bt, ok := t.Type().Underlying().(*types.Basic); ok {
+							switch bt.Kind() {
+							case types.Float32:
+								fr.vals[t] = args[0].trunc(32)
+							case types.Float64:
+								fr.vals[t] = args[0].trunc(64)
+							}
+						}
+					}
+					break
+				}
+				if _, done := fr.vals[t]; done {
+					break
+				}
 				if len(cal.Blocks) > 0 {
 					fr.vals[t] = e.Call(cal, args)
+					if e.stopped {
+						return e.captured
+					}
 				}
 			case *ssa.Return:
 				if len(t.Results) == 1 {
@@ -647,9 +704,36 @@ func (e *bpEval) exec(b, pred *ssa.BasicBlock, fr *bpFrame) pval {
 						f1.vals[k] = v
 						f2.vals[k] = v
 					}
+					// each side has its own history (loop detection) and may stop on its own
+					saved := e.visited
+					cp := func() map[*ssa.BasicBlock]bool {
+						if saved == nil {
+							return nil
+						}
+						m := make(map[*ssa.BasicBlock]bool, len(saved))
+						for k, v := range saved {
+							m[k] = v
+						}
+						return m
+					}
+					e.visited = cp()
 					r1 := e.exec(b.Succs[0], b, f1)
+					s1 := e.stopped
+					e.stopped = false
+					e.visited = cp()
 					r2 := e.exec(b.Succs[1], b, f2)
-					return joinIte(c.bits[0], r1, r2)
+					s2 := e.stopped
+					e.visited = saved
+					if s1 != s2 {
+						e.stopped = false
+						return e.fail("only one side of a data-dependent branch reaches the destination write")
+					}
+					e.stopped = s1
+					j := joinIte(c.bits[0], r1, r2)
+					if e.stopped {
+						e.captured = j
+					}
+					return j
 				default:
 					return e.fail("branch on an unknown bit in %s", fr.fn.Name())
 				}
